@@ -11,7 +11,10 @@ use crate::model::unit::cost::ReverseCost;
 use crate::model::unit::Cost;
 use crate::util::priority_queue::InternalPriorityQueue;
 
+#[cfg(not(all(kani, feature = "verif-models")))]
 use std::collections::HashMap;
+#[cfg(all(kani, feature = "verif-models"))]
+use crate::util::verif_collections::HashMap;
 use std::time::Instant;
 
 /// run an A* Search over the given directed graph model. traverses links
